@@ -10,12 +10,15 @@
                      An edge whose refined set is empty is infeasible and is not followed.
   returns()          classification of every definition of the return place of a Result-returning
                      body: Ok aggregate / Err aggregate / `?` residual / awaited or called callee
-  Awaited            links a call of an `async fn` to the locals carrying its awaited result and to
+  result_locals / try_of   link a call of an (async) fn to the locals carrying its (awaited) result and to
                      the `?` applied to it
   code_bodies()      bodies of a fn family (the fn, its coroutine, the `#[instrument]` inner coroutine)
   upvar_source()     traces a captured variable of a closure/coroutine to the operand captured
-  panic_sites()      enumeration of panic-capable constructs of a body (R-PANIC), with a
-                     provenance-based shape that does not mention local names or numbers
+  panic_sites() / panic_audit()   enumeration of panic-capable constructs of a body (R-PANIC) with a
+                     provenance-based shape that does not mention local names or numbers; discharge by a
+                     recognised guard or a reviewed table entry whose requirement is re-checked on the MIR
+  rule_read_n / rule_wire   rules shared by C16 and C17 (exit condition of read_commands; keyword tables)
+  Tagged             ctx proxy to repeat a rule set on a second configuration (K3) with prefixed keys
 """
 from . import mir
 
@@ -336,7 +339,49 @@ class VarFacts:
                     hops += 1
                     continue
                 break
-            return ("bool", keys, None)
+            return ("bool", keys, self._enum_comparison(cur, neg))
+        return None
+
+    def _const_variant(self, op):
+        """(adt, variant) when the operand is (a reference to) a constant unit variant of an enum"""
+        o = mir.origin(self.body, op)
+        if o[0] == "const":
+            pv = o[1].get("pv")
+            if isinstance(pv, dict) and isinstance(pv.get("agg"), str) and not pv.get("items"):
+                adt, _, var = pv["agg"].rpartition("::")
+                return adt, var
+        if o[0] == "rv" and o[1][0] == "agg" and o[1][1] == "adt" and o[1][3] is not None and not o[1][4]:
+            return o[1][2], o[1][3]
+        if o[0] in ("ref", "place") and not o[1][1]:
+            d = single_def(self.body, o[1][0])
+            if d is not None and d[0] == "assign" and d[4][0] == "agg" and d[4][1] == "adt" and d[4][3] is not None and not d[4][4]:
+                return d[4][2], d[4][3]
+        return None
+
+    def _enum_comparison(self, cur, neg):
+        """the bool in canonical place `cur` is the result of `x == <constant unit variant>` (or `!=`):
+        -> (key of x, adt, variant, true_means_equal)"""
+        if cur[1] or is_arg(self.body, cur[0]):
+            return None
+        d = single_def(self.body, cur[0])
+        if d is None or d[0] != "call":
+            return None
+        c = d[1]
+        if not (c.is_("eq", "ne") and "PartialEq" in (c.callee + c.declared) and len(c.args) == 2):
+            return None
+        for x, y in ((c.args[0], c.args[1]), (c.args[1], c.args[0])):
+            cv = self._const_variant(y)
+            xl = mir.op_local(x)
+            if cv is None or xl is None:
+                continue
+            uni = self.universe(cv[0])
+            if uni is None or cv[1] not in uni:
+                continue
+            px = canon(self.body, [xl, list(x[1][1]) + ["*"]])
+            equal_when_true = c.is_("eq")
+            if neg:
+                equal_when_true = not equal_when_true
+            return (pkey(px), cv[0], cv[1], equal_when_true)
         return None
 
     def _edges(self, b, st):
@@ -384,6 +429,18 @@ class VarFacts:
                         if not new:
                             feasible = False
                         ns[key] = new
+                    ec = sk[2]
+                    if ec is not None and len(names) == 1:
+                        ekey, adt, var, eq_when_true = ec
+                        is_true = "true" in names
+                        equal = is_true if eq_when_true else not is_true
+                        uni = self.universe(adt)
+                        vals = frozenset([var]) if equal else frozenset(uni) - frozenset([var])
+                        old = st.get(ekey)
+                        new = vals if old is None else vals & old
+                        if not new:
+                            feasible = False
+                        ns[ekey] = new
                 elif sk is not None and sk[0] == "const":
                     kv = sk[1].get("v") if sk[1] else None
                     if isinstance(kv, (bool, int)):
@@ -445,6 +502,12 @@ class VarFacts:
                 a = self.f.adts.get(sc[2])
                 if a and a.get("kind") == "Enum":
                     keys.add(ckey(self.body, sc[1]))
+            elif t[2] == "bool":
+                sk = self._switch_key(b)
+                if sk is not None and sk[0] == "bool" and sk[2] is not None:
+                    a = self.f.adts.get(sk[2][1])
+                    if a and a.get("kind") == "Enum":
+                        keys.add(sk[2][0])
         return keys
 
     def _sig(self, st):
@@ -565,7 +628,24 @@ class VarFacts:
             sc = mir.switch_scrutinee(self.body, b)
             if sc[0] == "discr" and sc[2] == adt:
                 out.setdefault(ckey(self.body, sc[1]), []).append(b)
+            elif t[2] == "bool":
+                sk = self._switch_key(b)
+                if sk is not None and sk[0] == "bool" and sk[2] is not None and sk[2][1] == adt:
+                    out.setdefault(sk[2][0], []).append(b)
         return out
+
+
+_VF = {}
+
+
+def vfacts(f, body):
+    """memoised VarFacts(f, body)"""
+    ent = _VF.get(id(body))
+    if ent is not None and ent[0] is body:
+        return ent[1]
+    vf = VarFacts(f, body)
+    _VF[id(body)] = (body, vf)
+    return vf
 
 
 # ------------------------------------------------------------------------------------------ awaits / `?`
@@ -943,9 +1023,7 @@ def panic_audit(ctx, f, scope, table, state_asserts=None, rule="PANIC"):
             root = b.root
             key = "%s:%s:%s" % (short(root), kind, shape)
             where = "%s:%d" % (b.file, line)
-            if b.id not in vfs:
-                vfs[b.id] = VarFacts(f, b)
-            vf = vfs[b.id]
+            vf = vfacts(f, b)
             if vf.IN[blk] is None:
                 ctx.ob(rule, key, True, "statically unreachable", where)
                 continue
@@ -982,7 +1060,7 @@ def rule_read_n(ctx, f, rule="READ-N"):
     grows by one per push onto v."""
     root = ctx.one(f.find(name="read_commands", adt=_COMMON, trait=""), "Common::read_commands")
     body = ctx.one(code_bodies(f, root.id, has_call("recvmsg")), "code body of Common::read_commands")
-    vf = VarFacts(f, body)
+    vf = vfacts(f, body)
     oks = [(b, info) for kind, b, info in returns(body) if kind == "ok"]
     ctx.floor(rule, "Ok returns of read_commands", len(oks), 1)
     # comparisons counter == n_commands
@@ -1046,7 +1124,7 @@ def rule_read_n(ctx, f, rule="READ-N"):
         ctx.ob(rule, "read_commands:one-push-per-increment", not bad1 and not bad2,
                "every pushed command is counted and every count has a pushed command", body.where)
     for b, info in oks:
-        vecs = {mir.root_local(body, c.args[0]) if False else canon(body, [mir.op_local(c.args[0]), ["*"]])[0] for c in pushes}
+        vecs = {canon(body, [mir.op_local(c.args[0]), ["*"]])[0] for c in pushes}
         ret = mir.root_local(body, info[4][0]) if info[4] else None
         ctx.ob(rule, "read_commands:returns-the-pushed-vector", ret in vecs, "the Vec returned is the one the commands were pushed to", body.where)
 
@@ -1073,3 +1151,126 @@ class Tagged:
 
     def one(self, items, what, rule="ANCHOR"):
         return self._ctx.one(items, self._tag + what, rule)
+
+
+# ------------------------------------------------------------------------------------------ WIRE
+# D-Bus specification, "Authentication protocol": command keywords and mechanism names on the wire.
+COMMAND_WORDS = {"AUTH": "Auth", "CANCEL": "Cancel", "BEGIN": "Begin", "DATA": "Data", "ERROR": "Error",
+                 "NEGOTIATE_UNIX_FD": "NegotiateUnixFD", "REJECTED": "Rejected", "OK": "Ok", "AGREE_UNIX_FD": "AgreeUnixFD"}
+MECH_WORDS = {"EXTERNAL": "External", "ANONYMOUS": "Anonymous"}
+
+
+def _fmt_first_piece(k):
+    """leading literal of a format string constant: `&str` value, or rustc's packed format template
+    (length-prefixed literal pieces, >= 0x80 = argument markers)"""
+    v = k.get("v")
+    if isinstance(v, str):
+        return v
+    if isinstance(v, dict) and "bytes" in v:
+        bs = v["bytes"]
+        if bs and bs[0] < 0x80 and len(bs) > bs[0]:
+            try:
+                return bytes(bs[1:1 + bs[0]]).decode()
+            except UnicodeDecodeError:
+                return None
+        return ""
+    return None
+
+
+def parse_table(f, body, adt):
+    """{literal: variant} for a `match s { "LIT" => Enum::Variant.. }` style parser: each aggregate of `adt`
+    is built where exactly one string comparison with a literal has come out true"""
+    vf = vfacts(f, body)
+    eqs = []
+    for c in mir.calls(body):
+        if c.is_("eq") and "PartialEq" in (c.callee + c.declared) and len(c.args) == 2:
+            for a in c.args:
+                k = mir.op_const(a)
+                if k is not None and isinstance(k.get("v"), str):
+                    eqs.append((c, k["v"]))
+    table, problems = {}, []
+    for b, i, pl, rv, ln in mir.assignments(body):
+        if rv[0] == "agg" and rv[1] == "adt" and rv[2] == adt:
+            st = vf.state_at_term(b) or {}
+            lits = sorted({lit for c, lit in eqs if st.get((c.dest[0], ())) == frozenset(["true"])})
+            if len(lits) != 1:
+                problems.append((rv[3], lits, ln))
+                continue
+            if lits[0] in table and table[lits[0]] != rv[3]:
+                problems.append((rv[3], lits, ln))
+            table[lits[0]] = rv[3]
+    return table, problems, len(eqs)
+
+
+def write_table(f, body, adt):
+    """{variant: set(first words written)} for a `match self { Variant => write!(f, "WORD ..") }` writer,
+    or a `match self { Variant => "WORD" }` table"""
+    vf = vfacts(f, body)
+    keys = vf.enum_keys(adt)
+    if len(keys) != 1:
+        return None
+    key = list(keys)[0]
+    heads = keys[key]
+    a = f.adts[adt]
+    out = {}
+    for v in [x["name"] for x in a["variants"]]:
+        within = vf.blocks_where(key, v)
+        seen = vf.reach(heads, within=within) - set(heads)
+        words = set()
+        for b in seen:
+            blk = body.blocks[b]
+            ops = []
+            for st in blk["s"]:
+                if st[0] == "=":
+                    ops += mir.rvalue_operands(st[2])
+            if blk["t"][0] == "call":
+                ops += blk["t"][1]["args"]
+            for op in ops:
+                k = mir.op_const(op)
+                if k is None:
+                    continue
+                piece = _fmt_first_piece(k)
+                if piece is None or piece == "":
+                    continue
+                words.add(piece.split(" ")[0])
+        out[v] = words
+    return out
+
+
+def rule_wire(ctx, f, rule="WIRE"):
+    """Keyword tables of the SASL wire format, parser and writer, against the specification."""
+    cmd = HSMOD + "command::Command"
+    mech = HSMOD + "auth_mechanism::AuthMechanism"
+    for adt, oracle, nm in ((cmd, COMMAND_WORDS, "Command"), (mech, MECH_WORDS, "AuthMechanism")):
+        fs = ctx.one(f.find(name="from_str", adt=adt, trait="core::str::traits::FromStr"), "<%s as FromStr>::from_str" % nm)
+        table, problems, neq = parse_table(f, fs, adt)
+        ctx.floor(rule, "%s::from_str: comparisons with a keyword" % nm, neq, len(oracle))
+        for variant, lits, ln in problems:
+            ctx.ob(rule, "%s::from_str:%s:one-keyword" % (nm, variant), False,
+                   "%s::%s is built under keyword(s) %s" % (nm, variant, lits), "%s:%d" % (fs.file, ln))
+        for word, variant in sorted(oracle.items()):
+            got = table.get(word)
+            ctx.ob(rule, "%s::from_str:%s" % (nm, word), got == variant,
+                   "`%s` parses to %s::%s" % (word, nm, variant) if got == variant else
+                   "`%s` parses to %s (specification: %s)" % (word, got, variant), fs.where)
+        for word in sorted(set(table) - set(oracle)):
+            ctx.ob(rule, "%s::from_str:extra:%s" % (nm, word), False, "keyword `%s` is not in the specification" % word, fs.where)
+        # writer
+        if nm == "Command":
+            wr = ctx.one(f.find(name="fmt", adt=adt, trait="core::fmt::Display"), "<Command as Display>::fmt")
+        else:
+            wr = ctx.one(f.find(name="as_str", adt=adt, trait=""), "AuthMechanism::as_str")
+        wt = write_table(f, wr, adt)
+        if wt is None:
+            ctx.ob(rule, "%s:writer:shape" % nm, False, "the writer does not match on self", wr.where)
+            continue
+        inv = {v: k for k, v in oracle.items()}
+        for variant, words in sorted(wt.items()):
+            want = inv.get(variant)
+            ctx.ob(rule, "%s:writes:%s" % (nm, variant), words == {want},
+                   "%s::%s is written as `%s`" % (nm, variant, want) if words == {want} else
+                   "%s::%s is written as %s (specification: `%s`)" % (nm, variant, sorted(words), want), wr.where)
+    # Display of AuthMechanism goes through as_str
+    disp = ctx.one(f.find(name="fmt", adt=mech, trait="core::fmt::Display"), "<AuthMechanism as Display>::fmt")
+    ctx.ob(rule, "AuthMechanism:Display-uses-as_str", bool(mir.calls_to(disp, "AuthMechanism::as_str")),
+           "Display for AuthMechanism prints as_str()", disp.where)
